@@ -242,6 +242,20 @@ pub fn build(
     }
 }
 
+/// Make the struct generated for a type's own vftable block available. It depends on the
+/// signatures of the functions only, not on the layout of the type.
+pub fn generate_struct(
+    semantic: &mut SemanticState,
+    resolvee_path: &ItemPath,
+    visibility: Visibility,
+    functions: &[Function],
+) -> anyhow::Result<()> {
+    if let Some(item) = build_type(&semantic.type_registry, resolvee_path, visibility, functions) {
+        semantic.add_item(item)?;
+    }
+    Ok(())
+}
+
 /// Given a list of functions, create the type definition for the vftable containing them
 fn build_type(
     type_registry: &TypeRegistry,
